@@ -12,7 +12,7 @@
 (* line; the harness renders it and runs it through the real binary, whose *)
 (* hook trace is validated by TraceRun.tla with the same operators.        *)
 (***************************************************************************)
-EXTENDS Driver, Json, FiniteSets
+EXTENDS Driver, Asm, Json
 
 CONSTANTS MaxBlocks, MaxScript, MaxSteps, Gen
 
@@ -366,6 +366,61 @@ C12Layout ==
        /\ BootMachine(LL.mem).regs["ds"] = 0
 
 SpecC12 == InitC12 /\ [][FALSE]_vars
+
+(***************************************************************************)
+(* C14: every program of the C08 alphabet is well-formed exactly when the  *)
+(* block-level validity predicate says so, and single mutations of valid   *)
+(* programs are ill-formed                                                 *)
+(***************************************************************************)
+InitC14 ==
+  /\ mode = "c14" /\ steps = 0 /\ rstack = << >> /\ pos = << >> /\ d = << >>
+  /\ \E bs \in BlockSeqs : \E s \in 0 .. Len(bs) + 1 :
+       P = MkProgram(ItemsOf(bs, s), FALSE, << >>)       \* s = 0: no `start` at all
+
+HasStart == \E j \in 1 .. Len(P.items) : P.items[j].k = "label" /\ P.items[j].name = "start"
+BlocksOfP == P.items
+\* block-level validity restated on items: used labels defined exactly once, calls after definitions
+C14Agreement ==
+  mode = "c14" =>
+    LET wf == WellFormed(P, << >>)
+        labs == CodeLabelSeq(P.items)
+        used == {a.label : a \in {x.ast : x \in {y \in SeqRange(InsWithProcs(P.items, {}, FALSE)) : y.ast.cls = "jcc"}}}
+    IN /\ (wf => HasStart /\ NoDup(labs) /\ used \subseteq SeqRange(labs))
+       /\ (~HasStart => ~wf)
+       /\ (~NoDup(labs) => ~wf)
+       /\ (~(used \subseteq SeqRange(labs)) => ~wf)
+       \* a well-formed program compiles: every jump and call resolves
+       /\ (wf => LET CC == Compile(P) IN
+                   \A j \in 0 .. Len(CC.code) - 1 : InsAt(CC, << >>, j).cls \in {"ctl", "unarith", "jcc", "call", "ret", "mov", "print"})
+\* single mutations of the constant / operand rules
+C14Ranges ==
+  mode = "c14" =>
+    LET env == [data |-> {"v"}, offsets |-> ("v" :> 300), code |-> {"l"}, procs |-> {"p"}]
+        r8 == [k |-> "reg8", r |-> "al"]  r16 == [k |-> "reg16", r |-> "bx"]
+        imm(x) == [k |-> "imm", v |-> x % 65536, raw |-> x]
+        mem == [k |-> "mem", seg |-> "", base |-> "bx", index |-> "si", disp |-> -3]
+    IN /\ InsOK([cls |-> "mov", w |-> 8, dst |-> r8, src |-> imm(255)], env)
+       /\ InsOK([cls |-> "mov", w |-> 8, dst |-> r8, src |-> imm(-128)], env)
+       /\ ~InsOK([cls |-> "mov", w |-> 8, dst |-> r8, src |-> imm(256)], env)
+       /\ ~InsOK([cls |-> "mov", w |-> 8, dst |-> r8, src |-> imm(-129)], env)
+       /\ InsOK([cls |-> "binarith", op |-> "add", w |-> 16, dst |-> r16, src |-> imm(-32768)], env)
+       /\ ~InsOK([cls |-> "binarith", op |-> "add", w |-> 16, dst |-> r16, src |-> imm(65536)], env)
+       /\ ~InsOK([cls |-> "logic", op |-> "and", w |-> 16, dst |-> r16, src |-> imm(-1)], env)
+       /\ ~InsOK([cls |-> "mov", w |-> 8, dst |-> r8, src |-> r16], env)
+       /\ ~InsOK([cls |-> "mov", w |-> 16, dst |-> mem, src |-> mem], env)
+       /\ InsOK([cls |-> "mov", w |-> 16, dst |-> mem, src |-> r16], env)
+       /\ ~InsOK([cls |-> "mov", w |-> 8, dst |-> r8, src |-> [k |-> "offset", name |-> "v"]], env)
+       /\ InsOK([cls |-> "mov", w |-> 16, dst |-> r16, src |-> [k |-> "offset", name |-> "v"]], env)
+       /\ ~InsOK([cls |-> "mov", w |-> 16, dst |-> r16, src |-> [k |-> "offset", name |-> "l"]], env)
+       /\ ~InsOK([cls |-> "pop", dst |-> [k |-> "sreg", r |-> "cs"]], env)
+       /\ InsOK([cls |-> "push", src |-> [k |-> "sreg", r |-> "cs"]], env)
+       /\ ~InsOK([cls |-> "call", proc |-> "l"], env) /\ InsOK([cls |-> "call", proc |-> "p"], env)
+       /\ ~InsOK([cls |-> "jcc", mn |-> "jmp", label |-> "v"], env) /\ InsOK([cls |-> "jcc", mn |-> "jmp", label |-> "l"], env)
+       /\ ~InsOK([cls |-> "int", n |-> 5], env) /\ InsOK([cls |-> "int", n |-> 33], env)
+       /\ ~InsOK([cls |-> "unsupported", text |-> "into"], env)
+       /\ ~InsOK([cls |-> "string", op |-> "movs", w |-> 8, rep |-> "repz"], env)
+
+SpecC14 == InitC14 /\ [][FALSE]_vars
 
 (***************************************************************************)
 SpecC08 == InitC08 /\ [][NextRun]_vars
